@@ -28,8 +28,11 @@ def c08ctl (a : List String) (obs : String) : String × String :=
     let srcCipher := entry.startsWith "H" && server
     let wire := if srcCipher then xorSpec payload mask 0 else payload
     let h : Header := { fin := true, rsv := 0, op := natOr op, masked := server, mask := if srcCipher then mask else Mask.zero, len := payload.length }
-    let src : CtlSrc := { chunks := if wire.isEmpty then [] else (if chunk == 0 then [wire] else chunksOf chunk wire),
-                          writerTo := !srcCipher && chunk == 0 }
+    let cut : Option Nat := if (entry.drop 1).startsWith "f" then some (natOr (entry.drop 2).toString) else none
+    let src : CtlSrc := match cut with
+      | some c => { chunks := if (wire.take c).isEmpty then [] else [wire.take c], fin := .fail, writerTo := false }
+      | none => { chunks := if wire.isEmpty then [] else (if chunk == 0 then [wire] else chunksOf chunk wire),
+                  writerTo := !srcCipher && chunk == 0 }
     let model := match handleControl client h src srcCipher { masks } ProtoErr.textBytes with
       | none => "PANIC"
       | some (er, e') => s!"{cerrStr er} @{writesStr2 e'.dst} masks={mstr}"
@@ -37,7 +40,12 @@ def c08ctl (a : List String) (obs : String) : String × String :=
     let err := head.headD ""
     let wr := head.getD 1 "@-"
     let wrBytes := if wr == "@-" then [] else (((wr.drop 1).toString.splitOn ",").map hexOr).flatten
-    (model, judgeCtl client (natOr op) payload masks err wrBytes)
+    let verdict := match cut with
+      | some _ =>
+        if !wrBytes.isEmpty then "bad:reply-written-for-a-control-frame-that-was-cut"
+        else if err == "nil" then "bad:cut-control-frame-handled-without-error" else "ok"
+      | none => judgeCtl client (natOr op) payload masks err wrBytes
+    (model, verdict)
   | _ => ("BADOP", "skip")
 
 def cwRun (c : CtlWr) (e : Env) : List String → List String → List String
